@@ -155,20 +155,28 @@ class Enumerator(object):
                     e2 = ev + ((('cond', test, False, st),) if test is not None else ()) + (('loopdone', st),)
                     for ev3, s3, n3 in self.block(st.orelse):
                         results.append((e2 + ev3, s3, n3))
+            last_chance = False
             if k == maxn:
-                break
+                if not always:
+                    break
+                # a `while True` loop can only be left by break/return: run the body once more and
+                # keep just the paths that do leave (otherwise no path would show the second iteration)
+                last_chance = True
             newfront = []
             body = self.block(st.body)
             for ev in frontier:
                 head = ev + (('iter', st, k),) + ((('cond', test, True, st),) if test is not None else ())
                 for ev2, s2, n2 in body:
                     if s2 in ('next', 'continue'):
-                        newfront.append(head + ev2)
+                        if not last_chance:
+                            newfront.append(head + ev2)
                     elif s2 == 'break':
                         results.append((head + ev2 + (('loopdone', st),), 'next', None))
                     else:
                         results.append((head + ev2, s2, n2))
             frontier = newfront
+            if last_chance:
+                break
             if len(frontier) + len(results) > self.max_paths:
                 raise AnalysisError('path explosion in loop at line %d' % st.lineno)
             if not frontier:
